@@ -93,7 +93,7 @@ Section FChainExec.
   (* the number a literal denotes (strconv.ParseFloat, a parameter of the model) *)
   Definition lit_num (lit : list N) : num := match parse_float (text_of lit) with Some f => f | None => Fin 0 0 end.
   Definition fstep_okp (x : fstep) : bool :=
-    match x with FC _ _ lit => match parse_float (text_of lit) with Some _ => true | None => false end | FQ d => dnf_okp parse_float d | _ => true end.
+    match x with FC _ _ lit => match parse_float (text_of lit) with Some _ => true | None => false end | FQ d => dnf_okp parse_float regex_ok d | _ => true end.
   Definition fpre_of (x : fstep) : list (kind * basic) :=
     match x with
     | FS y => rstep_pre cfg y
